@@ -95,17 +95,21 @@ def run_unit(unit, rlimit=None, timeout=600, extra=()):
             if imports:
                 res2["auto_imports"] = res.get("auto_imports")
             return res2
-        if res2["status"] == "failed":
-            res["failures"] = both
-            for f in flaky:
-                res["undecided"].append({"kind": "unstable", "obligation": f["obligation"], "message": "failed under the default seed only (solver instability): " + f["message"], "clause": f["clause"]})
-            if not both:
-                res["status"] = "undecided"
-        else:
-            # the second run verified everything (or was undecided): nothing is confirmed
-            for f in res["failures"]:
-                res["undecided"].append({"kind": "unstable", "obligation": f["obligation"], "message": "failed under the default seed, second run %s: %s" % (res2["status"], f["message"]), "clause": f["clause"]})
-            res["failures"] = []
+        # per-function outcome of the second run: a failure is dropped only when the second run PROVED that function
+        proved2 = set(f["function"].split("::")[-1] for f in res2["functions"] if f.get("success"))
+        failed2 = set(f["function"] for f in res2["failures"])
+        keep, unstable = [], []
+        for f in res["failures"]:
+            fn = f["function"]
+            if fn in failed2 or fn not in proved2:
+                keep.append(f)          # failed again, or not decided the second time (resource limit): the first verdict stands
+            else:
+                unstable.append(f)
+        res["reseed"]["kept"] = len(keep)
+        res["failures"] = keep
+        for f in unstable:
+            res["undecided"].append({"kind": "unstable", "obligation": f["obligation"], "message": "failed under the default seed, proved under seed %d (solver instability): %s" % (RESEED, f["message"]), "clause": f["clause"]})
+        if not keep:
             res["status"] = "undecided"
     return res
 
